@@ -340,6 +340,26 @@ ADDRS = ["1.2.3.4", "10.0.0.1", "255.255.255.255", "0.0.0.0", "0::1", "2001:db8:
 FIELD_LENS = [0, 1, 9, 10, 11, 29, 30, 31, 49, 50, 51, 62, 63, 64, 65, 200, 600]
 
 
+def zero_pattern_addr(mask, rng=None):
+    """uncompressed IPv6 text whose group i is zero iff bit i of mask is clear"""
+    pool = ["1", "a", "ff", "1a2b", "ffff", "30", "5"]
+    gs = []
+    for i in range(8):
+        if mask >> i & 1:
+            gs.append(rng.choice(pool) if rng else pool[i % len(pool)])
+        else:
+            gs.append("0")
+    return ":".join(gs)
+
+
+def rand_addr(rng):
+    """announced address: the fixed pool, or an IPv6 address with a random pattern of zero groups
+    (several zero runs of different lengths: what the printer's '::' choice depends on)"""
+    if rng.random() < 0.55:
+        return rng.choice(ADDRS)
+    return zero_pattern_addr(rng.randrange(256), rng)
+
+
 def rand_word(rng, n, alphabet="abcXYZ019-_~[]"):
     return "".join(rng.choice(alphabet) for _ in range(n))
 
@@ -402,7 +422,7 @@ class Client:
 def client_script(rng, cid, cfg, mods):
     """abstract events of one client, in its own order"""
     ev = []
-    addr = rng.choice(ADDRS)
+    addr = rand_addr(rng)
     port = rng.choice(["1234", "0", "65535", "65536", "70000", "-1", "x"])
     ev.append(("C", addr, port))
     items = []
@@ -441,7 +461,7 @@ def client_script(rng, cid, cfg, mods):
     if rng.random() < 0.3:
         ev.insert(rng.randint(1, len(ev)), ("line", rng.choice(["D", "T"])))
     if rng.random() < 0.15:
-        ev.insert(rng.randint(1, len(ev)), ("C", rng.choice(ADDRS), "99"))
+        ev.insert(rng.randint(1, len(ev)), ("C", rand_addr(rng), "99"))
     if rng.random() < 0.3:
         ev.append(("line", "H"))
     return ev
@@ -590,6 +610,17 @@ def search_cases(prop, finding, seed):
                     for pos in range(len(tail) + 1):
                         add(tail[:pos] + ["timeout %d" % cid] + tail[pos:] + [line])
     out = out[:4000]
+    # the same history with every pattern of zero groups as the announced address
+    for pos, l in enumerate(tail):
+        f = l.split(" ")
+        if f[0] == "in":
+            t = unhx(f[1]).split(b" ")
+            if len(t) >= 6 and t[1] == b"C":
+                for mask in range(256):
+                    t2 = list(t)
+                    t2[2] = zero_pattern_addr(mask).encode()
+                    add(tail[:pos] + ["in " + hx(b" ".join(t2))] + tail[pos + 1:] + [inl("%s H" % t[0].decode("latin-1"))])
+                break
     # a fresh batch, ten times the quick size, with configured timeouts favoured
     for i in range(6000):
         c = scenario(rng, "search/rnd%d" % i)
@@ -771,7 +802,11 @@ def noisy_scenario(rng, name):
             ops.insert(pos, inl("-1 ? " + rng.choice(["bogus", ":what now", "STATS"])))
         elif r < 0.8:
             bad = Cfg(timeout=cfg.timeout, services=cfg.services, rules=cfg.rules, logs=cfg.logs)
-            txt = bad.text().replace("timeout %d;" % cfg.timeout, "timeout %s;" % rng.choice(["soon", "1x", "\"\""]))
+            val = rng.choice(["soon", "1x", "\"\""])
+            txt = bad.text().replace("timeout %d;" % cfg.timeout, "timeout %s;" % val)
+            if val == "\"\"":
+                # the empty text is a valid interval (no components: 0 seconds), not an unparsable one
+                bad.timeout = 0
             ops.insert(pos, "reload %s %s" % (hx(txt), bad.fields()))
         else:
             ops.insert(pos, inl(rng.choice(MALFORMED)))
